@@ -183,9 +183,9 @@ def model_rejects(moddir, module, cfg, invariant, timeout=900, workers="auto"):
     return r
 
 
-def generate(moddir, module, cfg, timeout=900, workers=1, simulate=None):
+def generate(moddir, module, cfg, timeout=900, workers=1, simulate=None, extra=None):
     """Run a generation config; the spec prints scenarios as "VERIF-GEN <json>" lines."""
-    r = run_tlc(moddir, module, cfg, timeout=timeout, workers=workers, simulate=simulate)
+    r = run_tlc(moddir, module, cfg, timeout=timeout, workers=workers, simulate=simulate, extra=extra)
     if r.error and "VERIF-GEN" not in r.out:
         raise Infra("generation %s/%s %s failed:\n%s" % (moddir, module, cfg, "\n".join(r.out.splitlines()[-40:])))
     seen, out = set(), []
